@@ -103,6 +103,15 @@ pub fn run(ctx: &Ctx) -> Report {
             judge(&c02::prog_of(&f, &seq).render(), fam, b, l);
         }));
     }
+    for f in c02::families().into_iter().filter(|f| f.name == "pc-relative") {
+        let k = f.items.len() as u64;
+        let maxlen = f.maxlen(ctx.thorough);
+        let b = &budgets;
+        rep.absorb(par_run(seq_count(k, maxlen), |i, l| {
+            let seq = seq_decode(i, k, maxlen);
+            judge(&c02::in_negative_bank(c02::prog_of(&f, &seq)).render(), "pc-relative-in-a-bank-at-a-negative-address", b, l);
+        }));
+    }
     let all: Vec<usize> = (1..=31).collect();
     let grid: Vec<(usize, bool)> = (0..=12).flat_map(|n| [(n, false), (n, true)]).collect();
     rep.absorb(par_cases(&grid, |(n, osc), l| judge(&c02::chain_prog(*n, *osc).render(), "skeleton-chain", &all, l)));
